@@ -147,6 +147,8 @@ def collect_reads_in_parallel(sample, chr_id, args):
         for g in read_grouper.read_groups:
             group_dump.write("%s\n" % g)
     alignment_collector.alignment_stat_counter.dump(bamstat_file)
+    # the save file must be complete before the chromosome is marked as collected
+    tmp_printer.close()
 
     logger.info("Finished processing chromosome " + chr_id)
     open(lock_file, "w").close()
